@@ -46,7 +46,7 @@ CHECKS = {
     ),
     "C10": dict(
         technique="Lean 4 proof: error position theorems for the single-process iterator and the multi-process protocol (with the refuted full statement for snapshot intervals > 1) + correspondence + catch-and-continue oracle",
-        text="TDV.SP.error_position_map/_iter_*, TDV.MP.error_position (full strength: every interval, every set of failing fetches, every schedule - after the repair of the snapshot trigger), error_position_map, error_position_prefix_iter, take_snapshot_assertion_holds_map, TDV.MPU.error_position_iter, take_snapshot_assertion_holds_iter. Oracle: failing items / collate / worker_init_fn (also after a loaded state) / state_dict() raising, under all worker counts, snapshot intervals and schedules; expected sequence derived from the documentation.",
+        text="TDV.SP.error_position_map/_iter_*, TDV.MP.error_position (full strength: every interval, every set of failing fetches, every schedule - after the repair of the snapshot trigger), error_position_map, error_position_prefix_iter, take_snapshot_assertion_holds_map, TDV.MPU.error_position_iter, take_snapshot_assertion_holds_iter; TDV.MPR.*_err (checkpoints with failing fetches: snapshot_sound_map_err full, resume/chain partial with the full statements refuted on witnesses); TDV.MPH.handshake_drains / workers_survive / error_iff_failing_start / next_epoch_fresh (persistent-worker resume handshake with failing epoch starts, every interleaving; the pre-fix protocol refuted). Oracle: failing items / collate / worker_init_fn (also after a loaded state) / state_dict() raising / dataset __iter__ raising at the start of a later epoch with persistent workers / in_order=False (multisets), under all worker counts, snapshot intervals and schedules; expected sequence derived from the documentation.",
         note="Trusted: Lean kernel + standard axioms; generator-based iterable datasets die on their first exception (Python semantics) and are excluded from the reference.",
         ref="DESIGN.md §7 C10",
     ),
